@@ -119,6 +119,7 @@ from unyt.exceptions import (
     SymbolNotFoundError,
     UnitConversionError,
     UnitOperationError,
+    UnitParseError,
     UnitsNotReducible,
 )
 from unyt.unit_object import Unit, _check_em_conversion, _em_conversion
@@ -126,6 +127,7 @@ from unyt.unit_registry import (
     UnitRegistry,
     _correct_old_unit_registry,
     _sanitize_unit_system,
+    _use_dimension_singletons,
     default_unit_registry,
 )
 from unyt.unit_symbols import delta_degC, delta_degF
@@ -2232,7 +2234,19 @@ class unyt_array(np.ndarray):
         """
         np_ret = super().__reduce__()
         obj_state = np_ret[2]
-        unit_state = (((str(self.units), self.units.registry.lut),) + obj_state[:],)
+        units = self.units
+        unit_meta = (str(units), units.registry.lut)
+        # The unit is restored by looking its string up in the pickled
+        # registry. A unit created before its registry was edited keeps the
+        # value it had then, which the table no longer implies: pickle that
+        # value as well so the array comes back meaning what it means now.
+        try:
+            unchanged = Unit(unit_meta[0], registry=units.registry) == units
+        except UnitParseError:
+            unchanged = False
+        if not unchanged:
+            unit_meta += ((units.base_value, units.base_offset, units.dimensions),)
+        unit_state = ((unit_meta,) + obj_state[:],)
         new_ret = np_ret[:2] + unit_state + np_ret[3:]
         return new_ret
 
@@ -2243,10 +2257,15 @@ class unyt_array(np.ndarray):
         metadata extracted in __reduce__ and then serialized by pickle.
         """
         super().__setstate__(state[1:])
-        unit, lut = state[0]
+        unit, lut = state[0][:2]
         lut = _correct_old_unit_registry(lut)
         registry = UnitRegistry(lut=lut, add_default_symbols=False)
-        self.units = Unit(unit, registry=registry)
+        if len(state[0]) > 2:
+            base_value, base_offset, dimensions = state[0][2]
+            dimensions = _use_dimension_singletons(dimensions)
+            self.units = Unit(unit, base_value, base_offset, dimensions, registry)
+        else:
+            self.units = Unit(unit, registry=registry)
 
     def __deepcopy__(self, memodict=None):
         """copy.deepcopy implementation
